@@ -39,7 +39,7 @@ pub const C19: Check = Check {
     level: "fault_enumeration",
     rule: "two RTR listeners run in the same real rtr_listener future; listener A receives sequences of connections of \
            which a chosen subset fails per-connection setup (fault hook keyed by client source address 127.0.0.2, or a \
-           keepalive value the kernel rejects), listener B (never failing) is the liveness control on the same runtime. \
+           keepalive value the kernel rejects: 40000 s and 2^32+5 s), listener B (never failing) is the liveness control on the same runtime. \
            Oracle: after any failed setup, an un-faulted connection to A must get its Reset Query answered; with the \
            kernel-rejected keepalive every connection must be accepted and closed (EOF) rather than left in the backlog; \
            burst leg: all connections of a burst are established back to back before any protocol step, so setups fail while others wait in the backlog - every un-faulted one must be answered, none closed. \
@@ -212,7 +212,7 @@ fn run_c19(ctx: &mut Ctx, rep: &mut Report) {
 
         // Leg 2: keepalive the kernel rejects (no hooks involved) and an accepted value as control.
         let mut refused_with_rejected_keepalive: Option<Vec<String>> = None;
-        for (ka, expect_fail) in [(40_000u64, true), (600u64, false)] {
+        for (ka, expect_fail) in [(40_000u64, true), ((1u64 << 32) + 5, true), (600u64, false)] {
             let mut srv = match start_two_listener_server(ctx, Some(Duration::from_secs(ka)), false, 0) {
                 Ok(s) => s,
                 Err(e) => {
@@ -240,7 +240,7 @@ fn run_c19(ctx: &mut Ctx, rep: &mut Report) {
                         "rtr-tcp-keepalive {ka}s is rejected by the kernel: the first connection was closed, the following three were never accepted/closed ({:?})", outcomes),
                         json!({"leg": "keepalive", "keepalive": ka, "outcomes": outcomes}));
                 }
-                else if outcomes.iter().all(|o| *o == "error") {
+                else if outcomes[1..].iter().all(|o| *o == "error") {
                     // nothing listens at all: judged against the control below (same harness, accepted keepalive value)
                     refused_with_rejected_keepalive = Some(outcomes.iter().map(|s| s.to_string()).collect::<Vec<_>>());
                 }
@@ -254,8 +254,8 @@ fn run_c19(ctx: &mut Ctx, rep: &mut Report) {
             }
             else if let Some(o) = refused_with_rejected_keepalive.take() {
                 rep.violation("C19/listener-not-accepting-with-rejected-keepalive", format!(
-                    "rtr-tcp-keepalive 40000s is rejected by the kernel for every connection: the RTR listener does not accept connections at all (connect errors {:?}) while the same server with keepalive {ka}s answers", o),
-                    json!({"leg": "keepalive", "keepalive": 40000, "outcomes": o}));
+                    "an rtr-tcp-keepalive value the kernel rejects for every connection (40000 s or 2^32+5 s): the RTR listener does not accept later connections ({:?}) while the same server with keepalive {ka}s answers", o),
+                    json!({"leg": "keepalive", "outcomes": o}));
             }
         }
     }
